@@ -323,13 +323,12 @@ void ProgStrand(Env& env) {
   env.result += r + ";";
 }
 
-// timed waits: sleep_for, condition_variable::wait_for with a predicate (notified long before a far deadline, or never
-// notified with a near deadline), WaitFor on a future that is late / in time.
-// (Deadlines are chosen so that no timed waiter is notified within one tick of its deadline: that pattern crashes the
-//  scheduler — finding D12, see notes/C17.md — and is exercised separately.)
+// timed waits: sleep_for; condition_variable::wait_for / wait_until with and without predicate; waiters notified long
+// before their deadline, never, and *around* their deadline (notify_one / notify_all racing with the timeout — the
+// pattern that crashed the scheduler before /repo 33a96a1, D12); WaitFor on a future that is late / in time.
 void ProgTimed(Env& env) {
   yaclib_std::mutex m;
-  yaclib_std::condition_variable cv_go, cv_never;
+  yaclib_std::condition_variable cv_go, cv_never, cv_near;
   bool go = false;
   std::string log;
   std::vector<yaclib_std::thread> ts;
@@ -337,7 +336,18 @@ void ProgTimed(Env& env) {
   for (int k = 0; k < waiters; ++k) {
     ts.emplace_back([&, k] {
       std::unique_lock lock{m};
-      bool ok = cv_go.wait_for(lock, Ns{1000000 + k}, [&] { return go; });
+      bool ok;
+      if (k % 2 == 0) {
+        ok = cv_go.wait_for(lock, Ns{1000000 + k}, [&] { return go; });
+      } else {  // without predicate: the status of each single wait is client visible
+        ok = true;
+        while (!go) {
+          if (cv_go.wait_for(lock, Ns{1000000 + k}) == std::cv_status::timeout) {
+            ok = go;
+            break;
+          }
+        }
+      }
       log += "w" + std::to_string(k) + (ok ? "+" : "-");
       Ev("waiter " + std::to_string(k) + " ok=" + std::to_string(ok));
     });
@@ -348,10 +358,22 @@ void ProgTimed(Env& env) {
     log += ok ? "n+" : "n-";
     Ev("never ok=" + std::to_string(ok));
   });
+  for (int k = 0; k < 2 + env.size; ++k) {
+    ts.emplace_back([&, k] {  // deadlines 30, 37, 44, …: the notifier below fires at about 25 and 35
+      std::unique_lock lock{m};
+      auto st = k % 2 == 0 ? cv_near.wait_for(lock, Ns{30 + 7 * k})
+                           : cv_near.wait_until(lock, yaclib_std::chrono::steady_clock::now() + Ns{30 + 7 * k});
+      log += st == std::cv_status::timeout ? "t" : "s";
+      Ev("near " + std::to_string(k) + (st == std::cv_status::timeout ? " timeout" : " signalled"));
+    });
+  }
   ts.emplace_back([&] {
     yaclib_std::this_thread::sleep_for(Ns{25});
+    cv_near.notify_one();
     Ev("slept 25");
-    yaclib_std::this_thread::sleep_for(Ns{130});
+    yaclib_std::this_thread::sleep_for(Ns{10});
+    cv_near.notify_all();
+    yaclib_std::this_thread::sleep_for(Ns{120});
     {
       std::lock_guard lock{m};
       go = true;
@@ -362,6 +384,7 @@ void ProgTimed(Env& env) {
   });
   auto [f_late, p_late] = yaclib::MakeContract<int>();
   auto [f_soon, p_soon] = yaclib::MakeContract<int>();
+  auto [f_edge, p_edge] = yaclib::MakeContract<int>();
   ts.emplace_back([p = std::move(p_late)]() mutable {
     yaclib_std::this_thread::sleep_for(Ns{900});
     std::move(p).Set(7);
@@ -370,14 +393,21 @@ void ProgTimed(Env& env) {
     yaclib_std::this_thread::sleep_for(Ns{15});
     std::move(p).Set(8);
   });
+  ts.emplace_back([p = std::move(p_edge)]() mutable {  // fulfilled around the waiter's deadline
+    yaclib_std::this_thread::sleep_for(Ns{70});
+    std::move(p).Set(9);
+  });
   bool late = yaclib::WaitFor(Ns{60}, f_late);
   Ev("WaitFor late=" + std::to_string(late));
+  bool edge = yaclib::WaitFor(Ns{10}, f_edge);
+  Ev("WaitFor edge=" + std::to_string(edge));
   bool soon = yaclib::WaitFor(Ns{2000000}, f_soon);
   Ev("WaitFor soon=" + std::to_string(soon));
-  yaclib::Wait(f_late);
+  yaclib::Wait(f_late, f_edge);
   for (auto& t : ts) t.join();
-  std::string r = "timed log=" + log + " late=" + std::to_string(late) + " soon=" + std::to_string(soon) +
-                  " v=" + std::to_string(std::move(f_late).Get().Ok() + std::move(f_soon).Get().Ok());
+  std::string r = "timed log=" + log + " late=" + std::to_string(late) + " edge=" + std::to_string(edge) +
+                  " soon=" + std::to_string(soon) + " v=" +
+                  std::to_string(std::move(f_late).Get().Ok() + std::move(f_soon).Get().Ok() + std::move(f_edge).Get().Ok());
   Ev(r);
   env.result += r + ";";
 }
@@ -454,6 +484,7 @@ struct Config {
   std::uint64_t count = 0;
   std::uint32_t state = 0;
   int quarantine = 1;
+  int warm = 0;  // rec: run a program that draws numbers BEFORE SetSeed (former F3, kept armed)
 };
 
 bool ParseConfig(const std::string& line, Config& c) {
@@ -477,6 +508,7 @@ bool ParseConfig(const std::string& line, Config& c) {
     else if (k == "count") c.count = std::strtoull(v.c_str(), nullptr, 10);
     else if (k == "state") c.state = static_cast<std::uint32_t>(std::strtoul(v.c_str(), nullptr, 10));
     else if (k == "quarantine") c.quarantine = std::atoi(v.c_str());
+    else if (k == "warm") c.warm = std::atoi(v.c_str());
     else return false;
   }
   return true;
@@ -575,19 +607,26 @@ void RunRecord(const Config& c) {
     return;
   }
   ApplyFaultConfig(c);
+  if (c.warm != 0) {  // the process draws numbers before it is seeded
+    Rec warm;
+    warm.on = false;
+    gRec = &warm;
+    Env e;
+    InScheduler(c, [&] { ProgCas(e); });
+    gRec = nullptr;
+  }
   yaclib::SetSeed(c.seed);
   yaclib::fiber::SetInjectorState(0);
   Rec rec;
   gRec = &rec;
   Env env;
   env.size = c.size;
-  auto rand_seeded = yaclib::fiber::GetFaultRandomCount();
   std::uint64_t rand_ck = 0, inj_ck = 0;
   InScheduler(c, [&] {
     for (auto p : prog->phase1) p(env);
     // ---- checkpoint: only the root fiber exists
     auto base = Probe();
-    auto count = yaclib::fiber::GetFaultRandomCount() - rand_seeded;
+    auto count = yaclib::fiber::GetFaultRandomCount();  // exactly what the API reports (SetSeed reset it: f49f13c)
     auto state = yaclib::fiber::GetInjectorState();
     std::printf("ckpt %s count=%llu state=%u\n", c.key.c_str(), static_cast<unsigned long long>(count), state);
     rec.Reset();
@@ -785,6 +824,47 @@ int Pure(std::uint64_t vseed) {
                 static_cast<unsigned long long>(count), static_cast<unsigned long long>(forwarded), a == b ? 1 : 0,
                 a == expect ? 1 : 0);
   }
+  // --- former F3 (fixed in /repo f49f13c), kept armed: the restore clause used as documented, with the count EXACTLY as
+  //     GetFaultRandomCount() reports it, in a process that drew numbers before SetSeed (public API only, outside
+  //     fibers: InjectFault decides, its yield is a no-op here).  A fresh process is `SetSeed; ForwardToFaultRandomCount(n)`
+  //     — which is what the same calls do here: SetSeed resets the counter and the engine.
+  yaclib::SetFaultFrequency(3);
+  for (int round = 0; round < 24; ++round) {
+    std::uint32_t seed = static_cast<std::uint32_t>(gen() % 100000);
+    int pre = round % 3 == 0 ? 0 : static_cast<int>(1 + gen() % 40);  // injection points before SetSeed
+    int phase1 = static_cast<int>(5 + gen() % 60);
+    auto decisions = [](int n) {
+      std::string out;
+      for (int i = 0; i < n; ++i) {
+        auto before = yaclib::GetInjectedCount();
+        yaclib::InjectFault();
+        out += yaclib::GetInjectedCount() != before ? '1' : '0';
+      }
+      return out;
+    };
+    yaclib::SetSeed(seed ^ 0x9e3779b9u);
+    yaclib::fiber::SetInjectorState(0);
+    decisions(pre);
+    auto before_seed = yaclib::fiber::GetFaultRandomCount();  // numbers drawn by the process before it is seeded
+    yaclib::SetSeed(seed);
+    yaclib::fiber::SetInjectorState(0);
+    auto at_seed = yaclib::fiber::GetFaultRandomCount();  // 0 since f49f13c
+    decisions(phase1);
+    auto count = yaclib::fiber::GetFaultRandomCount();  // the recorded pair, exactly as the API reports it
+    auto state = yaclib::fiber::GetInjectorState();
+    auto orig = decisions(64);
+    yaclib::SetSeed(seed);
+    yaclib::fiber::ForwardToFaultRandomCount(count);
+    yaclib::fiber::SetInjectorState(state);
+    auto shown = yaclib::fiber::GetFaultRandomCount();  // the restored process reports the recorded count again
+    auto restored = decisions(64);
+    std::printf("F3 seed=%u drawn_before_SetSeed=%llu count_right_after_SetSeed=%llu recorded_count=%llu state=%u "
+                "count_after_restore=%llu original=%s restored_with_recorded_count=%s\n", seed,
+                static_cast<unsigned long long>(before_seed), static_cast<unsigned long long>(at_seed),
+                static_cast<unsigned long long>(count), state, static_cast<unsigned long long>(shown), orig.c_str(),
+                restored.c_str());
+  }
+  yaclib::SetFaultFrequency(16);
   std::printf("done\n");
   return 0;
 }
@@ -796,7 +876,7 @@ int Pure(std::uint64_t vseed) {
 // is logged (`>` + request) together with what it observably did (flags, fiber switches from on_resume, timed-wait
 // results); the Lean model `Sched.step` is then run on the logged request sequence and the raw draws of a mirror engine
 // and must produce the same observations (checks/C17.py).  Each script runs in a forked child that logs into shared
-// memory: the scheduler can crash (findings D8 / D12), which the model predicts as `ub`.
+// memory, so that a crash of the scheduler (there must be none) leaves the log up to the crash behind.
 struct SOp {
   char k;
   int a, b;
